@@ -26,12 +26,20 @@
       [interrupt_preserves_host_fields], [call_depth_budget], [energy_across_interrupt], [energy_no_double_charge].
     Documented non-properties: [artifact_parser_not_byte_canonical] (over-long LEB128 accepted),
     [reject_code_zero_would_collide] (unreachable: the engine rejects with negative codes only).
-    Energy in the machine model is a tick SUM + the sequence of non-zero ticks. *)
+    Energy in the machine model [Wasm/Resume.v] is a tick SUM + the sequence of non-zero ticks.
+    Fourth round ([Contract/V1Classify.v]): outcome classification [process_receive_result] /
+    [process_init_result] ([classification_total_and_characterised], [reject_reason_is_negative_return_code],
+    [receive_invalid_return_only_without_i32], [init_classification_characterised],
+    [receive_and_init_differ_on_positive_codes]); the machine with the host component it drives itself
+    (remaining energy, activation frames: [host_component_captured_and_restored],
+    [host_component_is_engine_save_restore], [resume_equiv_with_host_component]); the engine's loop
+    ([interrupted_runs_classify_as_uninterrupted]). *)
 From Coq Require Import ZArith NArith List Bool.
 From CB Require Import Common.IntN Wasm.Syntax Wasm.Sem Wasm.Compile Wasm.Machine
      Wasm.ArtifactCodec Wasm.ArtifactCodecProofs Wasm.ArtifactNormalForm Wasm.ArtifactView Wasm.ArtifactViewProofs
      Wasm.Resume Wasm.ResumeProofs Wasm.StoredResumedProofs
-     Trie.Locks Trie.InstanceState Trie.InstanceStateProofs Contract.V1Resume Contract.V1ResumeProofs.
+     Trie.Locks Trie.InstanceState Trie.InstanceStateProofs Contract.V1Resume Contract.V1ResumeProofs
+     Contract.V1Classify Contract.V1ClassifyProofs.
 Import ListNotations.
 
 (** ** stored artifacts *)
@@ -344,3 +352,153 @@ Theorem energy_no_double_charge : forall (H : Type) art (cost : hquery -> N) hc 
   = fst (r_host (m_run_direct (N * H) art (metered_host cost hc) fuel (e, h) st)).
 Proof. exact energy_no_double_charge_thm. Qed.
 Print Assumptions energy_no_double_charge.
+
+(** ** outcome classification and the host component of the machine (fourth round) *)
+
+(** [process_receive_result] followed by the [InvalidReturnCodeError] conversion is a total function
+    (a Gallina function: deterministic by construction) with this value in every case: a non-negative
+    i32 succeeds, a negative one rejects with that reason, a missing / non-i32 result is a trap that
+    consumes all energy, an interrupt hands the logs out iff [should_clear_logs], a machine error is
+    [OutOfEnergy] or a trap with the energy left *)
+Theorem classification_total_and_characterised : forall h r,
+  finalise (process_receive_result h r) =
+  match r with
+  | MSuccess (Some (VI32 z)) =>
+      if (0 <=? i32_signed z)%Z then RRSuccess (hv_logs h) (hv_changed h) (hv_retval h) (hv_energy h)
+      else RRReject (i32_signed z) (hv_retval h) (hv_energy h)
+  | MSuccess _ => RRTrap 0%N
+  | MInterrupted k =>
+      if should_clear_logs k then RRInterrupt (hv_energy h) (hv_changed h) (hv_logs h) k []
+      else RRInterrupt (hv_energy h) (hv_changed h) [] k (hv_logs h)
+  | MErr true => RROutOfEnergy
+  | MErr false => RRTrap (hv_energy h)
+  end.
+Proof. exact classify_receive_spec. Qed.
+Print Assumptions classification_total_and_characterised.
+
+(** reject reasons are exactly the negative return codes (as i32), with the host's return value and energy *)
+Theorem reject_reason_is_negative_return_code : forall h r reason v e,
+  finalise (process_receive_result h r) = RRReject reason v e <->
+  (exists z, r = MSuccess (Some (VI32 z)) /\ reason = i32_signed z /\ (-2147483648 <= reason < 0)%Z
+             /\ v = hv_retval h /\ e = hv_energy h).
+Proof. exact reject_reason_rule. Qed.
+Print Assumptions reject_reason_is_negative_return_code.
+
+(** the [Err(InvalidReturnCodeError)] path of [process_receive_result] is taken exactly for a missing or
+    non-i32 result: the [Err] branch of [reason_from_wasm_error_code] is unreachable from it *)
+Theorem receive_invalid_return_only_without_i32 : forall h r,
+  (exists v, process_receive_result h r = inl v) <->
+  (r = MSuccess None \/ exists z, r = MSuccess (Some (VI64 z))).
+Proof. exact receive_invalid_iff. Qed.
+Print Assumptions receive_invalid_return_only_without_i32.
+
+(** the tail of [invoke_init]: 0 succeeds, negative rejects, positive is a protocol violation
+    ([Err(InvalidReturnCodeError { value: Some(n) })], which the FFI turns into a null result) *)
+Theorem init_classification_characterised : forall h r,
+  process_init_result h r =
+  match r with
+  | MSuccess (Some (VI32 z)) =>
+      if (i32_signed z =? 0)%Z then inr (IRSuccess (hv_logs h) (hv_retval h) (hv_energy h))
+      else if (i32_signed z <? 0)%Z then inr (IRReject (i32_signed z) (hv_retval h) (hv_energy h))
+      else inl (Some (i32_signed z))
+  | MSuccess _ => inl None
+  | MInterrupted _ => inl None
+  | MErr true => inr IROutOfEnergy
+  | MErr false => inr (IRTrap (hv_energy h))
+  end.
+Proof. exact classify_init_spec. Qed.
+Print Assumptions init_classification_characterised.
+
+(** a POSITIVE return code: success for a receive method, protocol violation for an init method *)
+Theorem receive_and_init_differ_on_positive_codes : forall h z,
+  (variant_of (finalise (process_receive_result h (MSuccess (Some (VI32 z))))) = VSuccess
+   /\ process_init_result h (MSuccess (Some (VI32 z))) = inl (Some (i32_signed z)))
+  <-> (0 < i32_signed z)%Z.
+Proof. exact receive_init_differ_exactly_on_positive. Qed.
+Print Assumptions receive_and_init_differ_on_positive_codes.
+
+Example classification_nonvacuous :
+  let h := {| hv_energy := 77; hv_logs := [[1%N]]; hv_retval := [2%N]; hv_changed := false |} in
+  finalise (process_receive_result h (MSuccess (Some (VI32 4294967295)))) = RRReject (-1) [2%N] 77
+  /\ finalise (process_receive_result h (MSuccess (Some (VI32 2147483648)))) = RRReject (-2147483648) [2%N] 77
+  /\ finalise (process_receive_result h (MSuccess (Some (VI32 1)))) = RRSuccess [[1%N]] false [2%N] 77
+  /\ finalise (process_receive_result h (MSuccess None)) = RRTrap 0
+  /\ finalise (process_receive_result h (MErr true)) = RROutOfEnergy
+  /\ finalise (process_receive_result h (MErr false)) = RRTrap 77
+  /\ process_init_result h (MSuccess (Some (VI32 1))) = inl (Some 1%Z)
+  /\ process_init_result h (MSuccess (Some (VI32 0))) = inr (IRSuccess [[1%N]] [2%N] 77)
+  /\ process_init_result h (MSuccess (Some (VI32 4294967295))) = inr (IRReject (-1) [2%N] 77).
+Proof. exact classify_samples. Qed.
+Print Assumptions classification_nonvacuous.
+
+(** the machine with the host component the interpreter drives itself (remaining energy: [tick_energy];
+    [activation_frames]: [track_call] / [track_return]): the configuration captured at an interrupt,
+    with the energy handed out and the activation frames saved, resumes to exactly the live state *)
+Theorem host_component_captured_and_restored : forall s l r, tresume (tcapture s l) l r = tdirect s l r.
+Proof. exact t_capture_resume. Qed.
+Print Assumptions host_component_captured_and_restored.
+
+(** and that save / restore pair is the [Interrupted] branch of [process_receive_result] +
+    [resume_receive] of [Contract/V1Resume.v] on these two fields *)
+Theorem host_component_is_engine_save_restore : forall clear rh su cur r rh' w,
+  resume_in (snd (interrupt_out clear rh)) (fst (fst (interrupt_out clear rh))) su cur r = Some (rh', w) ->
+  tsave (hostc_of rh) = (fst (fst (interrupt_out clear rh)), sv_activation_frames (snd (interrupt_out clear rh)))
+  /\ hostc_of rh' = trestore (tsave (hostc_of rh)).
+Proof. exact tsave_is_interrupt_out. Qed.
+Print Assumptions host_component_is_engine_save_restore.
+
+Example saved_frames_reset_breaks_it :
+  let h := {| hc_energy := 5%N; hc_frames := 1019%N |} in
+  trestore (hc_energy h, MAX_ACTIVATION_FRAMES) <> h.
+Proof. exact reset_frames_not_restored. Qed.
+Print Assumptions saved_frames_reset_breaks_it.
+
+(** the full run: interrupting at ANY subset of the dynamic host calls and resuming gives the final
+    machine state or trap (incl. "too many nested functions" and out of energy), the host component at
+    the end (remaining energy, activation frames), the world of the host functions (all logs, return
+    value, state-changed flag), the tick trace and the number of host calls of the uninterrupted run *)
+Theorem resume_equiv_with_host_component : forall art (X : Type) (hfun : X -> nat -> hquery -> N -> X * hanswer)
+    choose rounds fuel w n tr s,
+  (fuel <= rounds)%nat ->
+  t_drive art X hfun choose rounds fuel w n tr s = t_run_direct art X hfun fuel w n tr s.
+Proof. exact t_resume_equiv. Qed.
+Print Assumptions resume_equiv_with_host_component.
+
+(** the engine's loop ([invoke_receive], then [resume_receive] after every [Interrupt], every
+    [run_config] result classified by [process_receive_result]; the host's [logs] field = the logs not
+    yet handed out): for any artifact, host functions, interrupt kinds, schedule and number of
+    interrupts, the results are [Interrupt]s followed by the classification of the uninterrupted run -
+    same variant, reject reason, return value, remaining energy ([strip_logs] removes what is reported per
+    section: logs and the state-changed flag, which [InstanceState::migrate] resets at every resume) - and
+    on success the logs handed out with the interrupts ++ the final logs = the logs of the uninterrupted
+    run, and the state changed in some section iff it changed in the uninterrupted run; the interrupted
+    execution has a result iff the uninterrupted one has (the fuel is a model artefact) *)
+Theorem interrupted_runs_classify_as_uninterrupted :
+  forall art (X : Type) (hfun : X -> nat -> hquery -> N -> X * hanswer) entry kind_of choose rounds fuel w s,
+  (fuel <= rounds)%nat ->
+  match e_drive art X hfun entry kind_of choose rounds fuel w O [] s O O [] with
+  | Some rs =>
+      exists ints final d,
+        rs = ints ++ [final]
+        /\ Forall (fun r => variant_of r = VInterrupt) ints
+        /\ e_direct art X hfun entry fuel w s = Some d
+        /\ strip_logs final = strip_logs d
+        /\ (variant_of d = VSuccess ->
+            concat (map logs_of ints) ++ logs_of final = logs_of d
+            /\ (existsb changed_of ints || changed_of final) = changed_of d)
+  | None => e_direct art X hfun entry fuel w s = None
+  end.
+Proof. exact e_drive_classifies_as_direct. Qed.
+Print Assumptions interrupted_runs_classify_as_uninterrupted.
+
+(** non-vacuity: a contract calling one import; transfer (logs handed out), query (logs kept), reject *)
+Example interrupted_runs_nonvacuous :
+  demo_run ITransfer 0 = Some [RRInterrupt 95 true [[1; 2]%N] ITransfer []; RRSuccess [] false [9%N] 95]
+  /\ demo_run IQueryExchangeRates 0
+     = Some [RRInterrupt 95 true [] IQueryExchangeRates [[1; 2]%N]; RRSuccess [[1; 2]%N] false [9%N] 95]
+  /\ demo_run ITransfer (-3) = Some [RRInterrupt 95 true [[1; 2]%N] ITransfer []; RRReject (-3) [9%N] 95]
+  /\ demo_run ITransfer 7 = Some [RRInterrupt 95 true [[1; 2]%N] ITransfer []; RRSuccess [] false [9%N] 95]
+  /\ demo_direct 0 = Some (RRSuccess [[1; 2]%N] true [9%N] 95)
+  /\ demo_direct (-3) = Some (RRReject (-3) [9%N] 95).
+Proof. exact demo_runs. Qed.
+Print Assumptions interrupted_runs_nonvacuous.
